@@ -102,7 +102,7 @@ def reshape_failure_cases(
             failure_cases.rename_axis("column", axis=1)  # type: ignore[call-overload]
             .assign(
                 index=lambda df: (
-                    df.index.to_frame().apply(tuple, axis=1).astype(str)
+                    _multiindex_to_frame(df).apply(tuple, axis=1).astype(str)
                 )
             )
             .set_index("index", drop=True)
